@@ -30,6 +30,15 @@ impl ZmodN {
     pub closed spec fn r_val(&self) -> nat { limbs(self.r.0@) }
     pub closed spec fn r2_val(&self) -> nat { limbs(self.r2.0@) }
 }
+impl ZmodN {
+    /// consequences of the invariant that callers outside this module need
+    pub proof fn lemma_wf_r(&self)
+        requires self.wf()
+        ensures self.r_val() < self.nval(), self.nval() % 2 == 1, self.nval() >= 1
+    {
+        lemma_mod_bound(pow_w(self.k as nat) as int, uv(self.n) as int);
+    }
+}
 impl MInt {
     pub open spec fn val(&self) -> nat { limbs(self.0@) }
 }
